@@ -116,3 +116,11 @@ VARIANTS += [
  V("c36-n1-overlap-probe-ignores-read-error", "C36", "C43.N1", "internal/overlap/checker.go",
    "		if kv == nil && points.Error() != nil {\n			return false, points.Error()\n		}\n", ""),
 ]
+VARIANTS += [
+ V("c47-w1-close-does-not-wait-for-flush", "C47", "C47.W1", "db.go",
+   "	for d.mu.compact.compactingCount > 0 || d.mu.compact.downloadingCount > 0 || d.mu.compact.flushing {", "	for d.mu.compact.compactingCount > 0 || d.mu.compact.downloadingCount > 0 {"),
+ V("c37-r1-seqnum-read-before-waiting-for-excise", "C37", "C03.R1", "snapshot.go",
+   "		snapshotSeqNum = d.mu.versions.visibleSeqNum.Load()\n		// Check if any of the keyRanges overlap with an ongoing", "		if snapshotSeqNum == 0 {\n			snapshotSeqNum = d.mu.versions.visibleSeqNum.Load()\n		}\n		// Check if any of the keyRanges overlap with an ongoing"),
+ V("c12-e1-rotation-drops-wal-close-error", "C12", "C10.E1", "db.go",
+   "	offset, err := d.mu.log.writer.Close()\n	if err != nil {", "	offset, _ := d.mu.log.writer.Close()\n	var err error\n	if err != nil {"),
+]
